@@ -35,6 +35,22 @@ func Deflate(payload []byte, level int) []byte {
 	return append([]byte(nil), out...)
 }
 
+// DeflateFinal compresses one message and ends the DEFLATE stream with a
+// block whose BFINAL bit is set, which RFC 7692 section 7.2.3.4 allows: the
+// stream as closed by the compressor followed by one 0x00 octet (the RFC's
+// example: f3 48 cd c9 c9 07 00 | 00 for "Hello"). A decompressor returns the
+// last bytes of such a stream together with its end-of-stream indication.
+func DeflateFinal(payload []byte, level int) []byte {
+	var buf bytes.Buffer
+	w, err := flate.NewWriter(&buf, level)
+	if err != nil {
+		panic(err)
+	}
+	_, _ = w.Write(payload)
+	_ = w.Close()
+	return append(append([]byte(nil), buf.Bytes()...), 0x00)
+}
+
 // ErrInflateLimit is returned by Inflate when the output would exceed max.
 var ErrInflateLimit = errors.New("wsref: inflated size exceeds the given maximum")
 
